@@ -497,7 +497,7 @@ func genValue(r *rand.Rand) []piece {
 		case x == 22:
 			out = append(out, piece{Kind: "utf8", Text: pick(r, "é", "日本", "ß"), Removable: true})
 		case x == 23 && r.Intn(3) == 0:
-			out = append(out, piece{Kind: "invalid-utf8-byte", Text: pick(r, "\xff", "\xc3", "\x80"), Removable: true})
+			out = append(out, piece{Kind: "invalid-utf8-byte", Text: pick(r, "\xff", "\xfe", "\xc0"), Removable: true}) // bytes that are invalid next to anything
 		case x == 24:
 			out = append(out, piece{Kind: "control-char", Text: pick(r, "\x01", "\x7f", "\x1b"), Removable: true})
 		case x == 25:
@@ -652,7 +652,8 @@ func genTypedValue(r *rand.Rand, kind string) (spelling, bool) {
 	case "url":
 		return spelling{"string", pick(r, "https://example.com/r.git", "git@host:p/r.git", "/srv/git/r.git", "../rel", "gh:o/r")}, true
 	case "refspec":
-		return spelling{"string", pick(r, "+refs/heads/*:refs/remotes/o/*", "refs/heads/main:refs/heads/main", "+refs/tags/*:refs/tags/*")}, true
+		// "refs/heads/main" (no colon: fetch without storing) is a refspec git accepts
+		return spelling{"string", pick(r, "+refs/heads/*:refs/remotes/o/*", "refs/heads/main:refs/heads/main", "+refs/tags/*:refs/tags/*", "refs/heads/main", "+refs/heads/*:refs/remotes/o/*")}, true
 	case "word":
 		return spelling{"string", pick(r, "origin", "up", "refs/heads/main", "gh:", "a@b.c", ".")}, true
 	}
@@ -678,7 +679,20 @@ func genFile(r *rand.Rand, typedBias bool) *cfgFile {
 			}
 			f.Idents = append(f.Idents, id)
 		} else {
-			f.Idents = append(f.Idents, genIdent(r))
+			id := genIdent(r)
+			// sibling: same section, subsection differing only in case (subsections are case-sensitive)
+			if i > 0 && r.Intn(8) == 0 {
+				if prev := f.Idents[i-1]; prev.Form == "quoted" && !prev.Typed && strings.ToUpper(prev.Sub) != strings.ToLower(prev.Sub) && prev.SubRaw == prev.Sub {
+					id = prev
+					if id.Sub == strings.ToUpper(id.Sub) {
+						id.Sub = strings.ToLower(id.Sub)
+					} else {
+						id.Sub = strings.ToUpper(id.Sub)
+					}
+					id.SubRaw, id.SubFeat = id.Sub, "sub-case-sibling"
+				}
+			}
+			f.Idents = append(f.Idents, id)
 		}
 	}
 	// blocks: each identity gets 1-2 blocks; order shuffled
